@@ -1,6 +1,7 @@
 """C13 — weighting methods are normalised, definition-conformant and order-independent."""
 from __future__ import annotations
 
+import bisect
 import math
 import warnings
 from decimal import Decimal, getcontext
@@ -26,7 +27,12 @@ RULE = (
     "years, prices 100000 +- 25, altitudes, base * (1 + cv * u); whole numbers or doubles), every criterion (1/2) or next to "
     "ordinary criteria (1/2): their normalised entropies are within 1e-5 of 1 without being 1 (1 - H = 1e-9 .. 1e-5, a small "
     "positive entropy weight); in both fifths the weighter classes are cycled so that every weighter sees them in every tier "
-    "(EqualWeighter on all-integer data with base_value / n not whole included); incoming "
+    "(EqualWeighter on all-integer data with base_value / n not whole included); on top of these, LONG matrices (101 .. a few "
+    "hundred alternatives, 2..6 criteria) whose criteria sit on a LARGE COMMON LEVEL with a small spread, |mean| / std of 1e5 .. 1e9 "
+    "(prices around 1e6 .. 1e8 +- units or cents, unix timestamps in seconds / milliseconds inside a short window, base + s * u; "
+    "whole numbers or doubles, some negated), every criterion (1/2) or next to ordinary criteria (1/2; always for EntropyWeighter), "
+    "weighter classes cycled (StdWeighter and CRITIC most often): there the formulas must hold up to rounding relative to the SPREAD "
+    "of a criterion, not to its level (see ASSUMPTIONS); incoming "
     "weights: pairwise distinct, ABSENT (matrix built without weights: default all-ones), explicit ones, a uniform constant (3.5, "
     "k/8, a double), 1/n, base_value/n, b'/n for another base_value b', or partly tied - for the first and for the second incoming "
     "vector, every weighter, every parameterisation; weighters: EqualWeighter(base_value), StdWeighter, EntropyWeighter, "
@@ -47,13 +53,24 @@ ASSUMPTIONS = [
     "(EntropyWeighter on matrices whose criteria ALL have a tiny relative spread: <= 5e5, there sum(1-H) is 2e-6 .. 6e-5 by construction; "
     "the tolerance on a weight is then still below 1e-3 of the total, so a weight of exactly 0 for a criterion that the formula gives "
     "1e-3 of the total, and NaN weights, are findings)",
+    "LONG matrices on a large level (family long:*): a standard deviation is a function of the deviations from the mean, and the "
+    "deviations of doubles that share a level are (nearly) exact, so the level enters the rounding of the definition only at second "
+    "order: textbook bound of the two-pass evaluation (Chan, Golub & LeVeque 1983) m*u + (m*u*kappa)^2 with kappa = |mean|/std and "
+    "u = 2^-53, i.e. < 2e-9 for kappa <= 1e9 and m <= 400. For this family the conditioning bound therefore is: std -> "
+    "max(1, (m*u*kappa)^2 / 1e-9) (no first-order allowance for the level); CRITIC on the unscaled matrix -> max|x - mean|/sigma instead of "
+    "max|x|/sigma, plus the same second-order term, plus - Pearson only - the published first-order bound m*u*kappa of the one-pass "
+    "(Welford) update that pandas.DataFrame.corr (external) uses; entropy and CRITIC on the ideal-distance-scaled matrix: the ordinary "
+    "bounds (1/sum(1-H); the scaled criteria span [0, 1]). The cap scale <= 1e4 applies unchanged, so EntropyWeighter sees the large-level "
+    "criteria only next to ordinary ones and CRITIC(pearson, scale=False) only up to kappa of about 1e7. An expanded-square "
+    "(sum x^2 - (sum x)^2/m) variance loses kappa^2 * u (1e-6 .. all digits) and is a finding on every case of the family",
     "the published formulas are undefined (0/0) when the normalising total is zero: all criteria constant (std, entropy) or all criteria "
     "perfectly (rank-)correlated (CRITIC, e.g. [[1,2],[2,4],[3,6]] with two maximise criteria gives NaN weights); such inputs are "
     "outside the generated domain (total >= 1e-3 of its natural scale)",
     "pandas DataFrame.corr (pearson / spearman, average ranks), numpy std and scipy.stats.entropy are external: modelled by their textbook formulas",
     "columns keep distinct values separated by >= 1e-9 of the column range so that ranks of the scaled matrix do not depend on rounding",
 ]
-PARTIAL = ("IEEE rounding, summation order, pandas' one-pass correlation update and its final clip to [-1, 1], NaN/inf propagation are not "
+PARTIAL = ("on LONG matrices (> 100 alternatives) Spearman evaluations above 120000 (alternatives * criteria)^2 are not run on the compiled "
+           "model (cost), only through the exact oracle; IEEE rounding, summation order, pandas' one-pass correlation update and its final clip to [-1, 1], NaN/inf propagation are not "
            "modelled; theorems are over R, the Float run of the model only accompanies the code")
 TRUSTED = ["Lean Float (C libm sqrt/log) is used only to run the model next to the code, never in a theorem"]
 
@@ -87,10 +104,11 @@ def _ssq(col):
 
 def _avg_ranks(col):
     """average ranks (ties share the mean of their positions), 1-based, ascending"""
+    srt = sorted(col)
     out = []
     for x in col:
-        less = sum(1 for y in col if y < x)
-        eq = sum(1 for y in col if y == x)
+        less = bisect.bisect_left(srt, x)  # entries strictly below x
+        eq = bisect.bisect_right(srt, x) - less  # entries equal to x
         out.append(Fraction(less) + Fraction(eq + 1, 2))
     return out
 
@@ -113,8 +131,22 @@ def _normalise(v):
     return [x / tot for x in v], tot
 
 
-def exact_weights(spec, A, objs):
-    """published formulas, Fraction / Decimal(50).  returns (weights | None, scale)"""
+U_ROUND = 2.0 ** -53
+
+
+def _kappa(col, s):
+    """|mean| / std of a criterion: how many digits an evaluation that works on the level (not on the deviations) loses"""
+    return abs(float(_mean(col))) / float(s)
+
+
+def _second_order(m, kappa):
+    """rounding of a two-pass standard deviation that is due to the LEVEL of the data, in units of TOL: (m u kappa)^2"""
+    return (m * U_ROUND * kappa) ** 2 / TOL
+
+
+def exact_weights(spec, A, objs, level=False):
+    """published formulas, Fraction / Decimal(50).  returns (weights | None, scale).  level: the conditioning bound of the
+    long / large-level family (rounding relative to the spread of a criterion, see ASSUMPTIONS); the weights are the same"""
     m, n = len(A), len(A[0])
     cls = spec["cls"]
     if cls == "EqualWeighter":
@@ -126,7 +158,10 @@ def exact_weights(spec, A, objs):
         w, tot = _normalise(s)
         if w is None or min(s) == 0:
             return None, 1.0
-        cond = max(float(max(abs(x) for x in c)) / float(sj) for c, sj in zip(cols, s))
+        if level:
+            cond = max(_second_order(m, _kappa(c, sj)) for c, sj in zip(cols, s))
+        else:
+            cond = max(float(max(abs(x) for x in c)) / float(sj) for c, sj in zip(cols, s))
         return w, max(1.0, cond)
     if cls == "EntropyWeighter":
         lm = D(m).ln()
@@ -168,8 +203,19 @@ def exact_weights(spec, A, objs):
         w, tot = _normalise(info)
         if w is None:
             return None, 1.0
-        cancel = max(float(max(abs(x) for x in c)) / float(sj) for c, sj in zip(mcols, sigma))
-        rcancel = max(float(max(abs(x) for x in c)) / math.sqrt(float(q) / m) for c, q in zip(rcols, rss))
+        if level and not spec["scale"]:
+            # raw criteria on a large level: deviations instead of values; the level enters at second order (two-pass np.std) and,
+            # for Pearson, at first order through the one-pass update of pandas' corr (published bound m u kappa)
+            kap = [_kappa(c, sj) for c, sj in zip(mcols, sigma)]
+            cancel = max(max(float(max(abs(x) for x in dv)) / float(sj), _second_order(m, k))
+                         for dv, sj, k in zip([[x - mu for x in c] for c, mu in zip(mcols, [_mean(c) for c in mcols])], sigma, kap))
+            if spec["correlation"] == "pearson":
+                rcancel = max(cancel, max(m * U_ROUND * k / TOL for k in kap))
+            else:
+                rcancel = max(float(max(abs(x) for x in c)) / math.sqrt(float(q) / m) for c, q in zip(rcols, rss))
+        else:
+            cancel = max(float(max(abs(x) for x in c)) / float(sj) for c, sj in zip(mcols, sigma))
+            rcancel = max(float(max(abs(x) for x in c)) / math.sqrt(float(q) / m) for c, q in zip(rcols, rss))
         cond = max(cancel, rcancel) * float(sum(sigma)) * n / float(tot)
         return w, max(1.0, cond)
     raise ValueError(cls)
@@ -212,6 +258,7 @@ def _columns_ok(A, entropy):
     return True
 
 
+LONG_CYCLE = ["StdWeighter", "CRITIC", "StdWeighter", "EntropyWeighter", "CRITIC", "StdWeighter", "CRITIC", "EqualWeighter", "CRITIC"]
 SPEC_CYCLE = ["EqualWeighter", "StdWeighter", "EntropyWeighter", "CRITIC", "EqualWeighter", "EntropyWeighter", "CRITIC", "StdWeighter", "CRITIC"]
 
 
@@ -356,6 +403,78 @@ def _lowcv_matrix(rng, m, n, positive, alone):
     return [[cols[j][i] for j in range(n)] for i in range(m)], low
 
 
+LEVEL_KINDS = ["price", "price", "timestamp", "epoch-ms", "generic", "generic"]
+KAPPA_MIN, KAPPA_MAX = 1e5, 1e9
+
+
+def _level_column(rng, m):
+    """a NON-constant criterion of a LONG matrix that sits on a large level with a small spread, |mean| / std of 1e5 .. 1e9:
+    prices around 1e6 .. 1e8 +- a few units (whole, or with cents / quarters), unix timestamps (seconds, whole or fractional) inside
+    a window of 10 s .. 1 h, epoch milliseconds inside 20 s .. 3 h, base + s * u.  The deviations from the mean are small whole
+    numbers / short doubles; the squares of the values need about twice the digits of a double"""
+    for _ in range(200):
+        kind = rng.choice(LEVEL_KINDS)
+        if kind == "price":
+            base = rng.choice([10 ** 6, 25 * 10 ** 5, 10 ** 7, 4 * 10 ** 7, 10 ** 8, 1999990, 12345678])
+            h = rng.choice([2, 5, 12, 40, 150])
+            den = rng.choice([1, 1, 4, 100])
+            col = [float(base) + rng.randint(-h * den, h * den) / den for _ in range(m)]
+        elif kind == "timestamp":
+            t0 = rng.randint(12 * 10 ** 8, 19 * 10 ** 8)
+            win = rng.choice([10, 60, 600, 3600])
+            col = [float(t0 + rng.randint(0, win)) for _ in range(m)] if rng.random() < 0.5 else [t0 + rng.uniform(0, win) for _ in range(m)]
+        elif kind == "epoch-ms":
+            t0 = rng.randint(12 * 10 ** 11, 19 * 10 ** 11)
+            win = rng.choice([2 * 10 ** 4, 10 ** 5, 10 ** 6, 10 ** 7])
+            col = [float(t0 + rng.randint(0, win)) for _ in range(m)]
+        else:
+            sp = 10 ** rng.uniform(-2, 3)
+            base = sp * 10 ** rng.uniform(5, 9)
+            col = [base + sp * rng.uniform(-1.7, 1.7) for _ in range(m)]
+        mu = math.fsum(col) / m
+        sd = math.sqrt(math.fsum((x - mu) ** 2 for x in col) / m)
+        if sd > 0 and KAPPA_MIN <= abs(mu) / sd <= KAPPA_MAX:
+            return col
+    raise RuntimeError("no large-level column")
+
+
+def _long_matrix(rng, m, n, positive, alone):
+    """alone: EVERY criterion sits on a large level; otherwise at least one does, next to at least one ordinary criterion"""
+    big = [True] * n
+    if not alone:
+        big = [rng.random() < 0.5 for _ in range(n)]
+        i, k = rng.sample(range(n), 2)
+        big[i], big[k] = True, False
+    fam = rng.choice(["dyadic", "float"])
+    ordinary = G.matrix(rng, m, n, fam, positive, ties=rng.choice([0.0, 0.15]), dups=rng.choice([0.0, 0.05]))
+    cols = []
+    for j in range(n):
+        if big[j]:
+            col = _level_column(rng, m)
+            if not positive and rng.random() < 0.15:
+                col = [-x for x in col]  # debts, depths
+            if rng.random() < 0.3:
+                for i in range(1, m):
+                    if rng.random() < 0.1:
+                        col[i] = col[rng.randrange(i)]
+        else:
+            col = [r[j] for r in ordinary]
+        cols.append(col)
+    return [[cols[j][i] for j in range(n)] for i in range(m)], big
+
+
+def _long_labels(rng, m):
+    """m distinct alternative labels (the shared pool is shorter than a long matrix)"""
+    stem = rng.choice(["A", "alt", "item-", "SKU", "x_"])
+    fmt = rng.choice(["%d", "%04d"])
+    return [stem + fmt % i for i in rng.sample(range(1, 10 * m), m)]
+
+
+def _is_level(family):
+    """the long / large-level family: conditioning bounds relative to the spread (exact_weights(level=True))"""
+    return str(family).startswith("long")
+
+
 WEIGHT_KINDS = ["distinct", "distinct", "distinct", "absent", "ones", "const", "const", "1/n", "base/n", "otherbase/n", "partly-tied"]
 
 
@@ -395,9 +514,9 @@ def _cap(spec, family):
     return MAX_SCALE
 
 
-def _in_domain(spec, A, objs, cap=None):
+def _in_domain(spec, A, objs, cap=None, level=False):
     """the configuration is inside the generated domain (formula defined, well conditioned, ranks of the scaled matrix stable)"""
-    w, scale = exact_weights(spec, A, objs)
+    w, scale = exact_weights(spec, A, objs, level)
     if w is None or scale > (MAX_SCALE if cap is None else cap):
         return False
     if spec["cls"] == "CRITIC" and spec["scale"]:
@@ -432,14 +551,14 @@ def _sequence(rng, spec, A, objs, family=None):
         steps = [{"spec": spec, "objectives": objs2}]
         if spec2 is not None:
             steps += [{"spec": spec2, "objectives": objs2}, {"spec": spec2, "objectives": list(objs)}]
-        if all(_in_domain(st["spec"], A, st["objectives"], _cap(st["spec"], family)) for st in steps):
+        if all(_in_domain(st["spec"], A, st["objectives"], _cap(st["spec"], family), _is_level(family)) for st in steps):
             return steps + [{"spec": spec, "objectives": list(objs)}]
     return None
 
 
-def one_case(rng, max_m=12, family=None, cls=None):
-    """family / cls: forced matrix family ("int": whole-number raw data, "lowcv": criteria with a tiny relative spread) and
-    weighter class; None = drawn"""
+def one_case(rng, max_m=12, family=None, cls=None, max_long=320):
+    """family / cls: forced matrix family ("int": whole-number raw data, "lowcv": criteria with a tiny relative spread, "long":
+    101 .. max_long alternatives, criteria on a large level with a small spread) and weighter class; None = drawn"""
     forced = family
     sub = rng.random()  # drawn once per case: rejection (conditioning caps) must not shift the shares of the sub-families
     for _ in range(400):
@@ -461,6 +580,11 @@ def one_case(rng, max_m=12, family=None, cls=None):
             alone = sub < 0.5
             rows, low = _lowcv_matrix(rng, m, n, positive, alone)
             family = "lowcv:alone" if alone else "lowcv:mixed"
+        elif family == "long":
+            m = int(round(10 ** rng.uniform(math.log10(101), math.log10(max_long))))
+            alone = sub < 0.5 and spec["cls"] != "EntropyWeighter"  # entropy: 1 - H of such a criterion is below rounding
+            rows, big = _long_matrix(rng, m, n, positive, alone)
+            family = "long:alone" if alone else "long:mixed"
         elif family == "unit":
             rows, ukind = _unit_matrix(rng, m, n, positive, ties=rng.choice([0.0, 0.15, 0.4]))
             if rows is None:
@@ -477,7 +601,7 @@ def one_case(rng, max_m=12, family=None, cls=None):
         if not _columns_ok(rows, spec["cls"] == "EntropyWeighter"):
             continue
         A = [[C.F(x) for x in r] for r in rows]
-        w, scale = exact_weights(spec, A, objs)
+        w, scale = exact_weights(spec, A, objs, _is_level(family))
         if w is None or scale > _cap(spec, family):
             continue  # formula undefined (0/0) or ill-conditioned: outside the generated domain
         if spec["cls"] == "CRITIC" and spec["scale"]:
@@ -487,7 +611,7 @@ def one_case(rng, max_m=12, family=None, cls=None):
         dtypes = ["int" if all(float(r[j]).is_integer() for r in rows) and rng.random() < 0.6 else "float" for j in range(n)]
         if declared is not None:
             dtypes = declared
-        elif family.startswith("lowcv") and rng.random() < 0.4:  # every whole-number criterion declared int
+        elif family.startswith(("lowcv", "long")) and rng.random() < 0.4:  # every whole-number criterion declared int
             dtypes = ["int" if all(float(r[j]).is_integer() for r in rows) else "float" for j in range(n)]
         seq = _sequence(rng, spec, A, objs, family)
         if seq is None:
@@ -507,7 +631,7 @@ def one_case(rng, max_m=12, family=None, cls=None):
         return {
             "kind": "weigh", "spec": spec,
             "dm": {"matrix": rows, "objectives": objs, "weights": w1 if w1 is not None else [1.0] * n, "no_weights": w1 is None,
-                   "weights_kind": wk1, "weights2_kind": wk2, "alternatives": G.labels(rng, G.LABEL_POOL_ALT, m),
+                   "weights_kind": wk1, "weights2_kind": wk2, "alternatives": G.labels(rng, G.LABEL_POOL_ALT, m) if m <= len(G.LABEL_POOL_ALT) else _long_labels(rng, m),
                    "criteria": G.labels(rng, G.LABEL_POOL_CRIT, n), "dtypes": dtypes, "family": family,
                    **({"int_build": int_build} if int_build else {})},
             "row_perm": rp, "col_perm": cp, "weights2": w2, "seq": seq,
@@ -518,10 +642,15 @@ def one_case(rng, max_m=12, family=None, cls=None):
 def gen(ctx):
     """two cases in five are forced: whole-number raw data (ALL criteria integer typed 2/3, int next to float 1/3) and criteria
     with a tiny relative spread (alone 1/2, next to ordinary criteria 1/2), each with the weighter classes cycled so that every
-    weighter sees both in every tier"""
+    weighter sees both in every tier; on top of them, spread evenly, the LONG matrices on a large level (36 quick / 360 thorough)"""
     rng = ctx.rng
     cases, k = [], 0
-    for i in range(ctx.n(300, 5000)):
+    n_main, n_long = ctx.n(300, 5000), ctx.n(36, 360)
+    every = n_main // n_long
+    for i in range(n_main):
+        if i % every == 0 and i // every < n_long:
+            # a LONG matrix on a large level: StdWeighter and CRITIC (standard deviations) most often, every class in every tier
+            cases.append(one_case(rng, family="long", cls=LONG_CYCLE[(i // every) % len(LONG_CYCLE)], max_long=ctx.n(320, 600)))
         forced = {3: "int", 4: "lowcv"}.get(i % 5)
         if forced:
             cases.append(one_case(rng, max_m=ctx.n(10, 14), family=forced, cls=SPEC_CYCLE[(k // 2) % len(SPEC_CYCLE)]))
@@ -661,14 +790,41 @@ def _req(case, domain, spec=None, objectives=None):
     return r
 
 
+MODEL_SPEARMAN_BUDGET = 120_000
+
+
+def _model_affordable(case, spec):
+    """the compiled model's Spearman correlation costs about 5 us * (alternatives * criteria)^2 (half a minute for 400 x 6): on
+    the LONG matrices a Spearman evaluation is run on the model only below 120000 (alternatives * criteria)^2 (101..173 x 2,
+    101..115 x 3); the other long Spearman evaluations are judged by the property oracle (exact evaluation) alone.  Every other
+    evaluation of every case is run on the model"""
+    d = case["dm"]
+    if not _is_level(d.get("family")) or spec["cls"] != "CRITIC" or spec["correlation"] != "spearman":
+        return True
+    return (len(d["matrix"]) * len(d["objectives"])) ** 2 <= MODEL_SPEARMAN_BUDGET
+
+
+def _model_plan(case):
+    """the evaluations that are also run on the Lean model, in request order: "first", "rat" (EqualWeighter, exact), sequence index"""
+    plan = ["first"] if _model_affordable(case, case["spec"]) else []
+    if case["spec"]["cls"] == "EqualWeighter":
+        plan.append("rat")
+    plan += [i for i, st in enumerate(case.get("seq", [])) if _model_affordable(case, st["spec"])]
+    return plan
+
+
 def requests(case, obs):
     if "err" in obs:
         return []
-    reqs = [_req(case, "float")]
-    if case["spec"]["cls"] == "EqualWeighter":
-        reqs.append(_req(case, "rat"))
-    for st in case.get("seq", []):
-        reqs.append(_req(case, "float", st["spec"], st["objectives"]))
+    reqs = []
+    for key in _model_plan(case):
+        if key == "first":
+            reqs.append(_req(case, "float"))
+        elif key == "rat":
+            reqs.append(_req(case, "rat"))
+        else:
+            st = case["seq"][key]
+            reqs.append(_req(case, "float", st["spec"], st["objectives"]))
     return reqs
 
 
@@ -728,7 +884,8 @@ def judge(case, obs, replies):
     A = [[C.F(x) for x in r] for r in d["matrix"]]
     n = len(d["objectives"])
     crit = d["criteria"]
-    exact, scale = exact_weights(spec, A, d["objectives"])
+    level = _is_level(d.get("family"))
+    exact, scale = exact_weights(spec, A, d["objectives"], level)
     tol = TOL * scale
     w = obs["weights"]
 
@@ -770,7 +927,7 @@ def judge(case, obs, replies):
         s_spec, s_objs = st["spec"], st["objectives"]
         where = (f"evaluation {i + 2} of a sequence on the same matrix values in one process "
                  f"[{_name(s_spec)}, objectives {s_objs}; first evaluation {name}, objectives {d['objectives']}]: ")
-        s_exact, s_scale = exact_weights(s_spec, A, s_objs)
+        s_exact, s_scale = exact_weights(s_spec, A, s_objs, level)
         s_tol = TOL * s_scale
         seq_tols.append(s_tol)
         sw = so["weights"]
@@ -793,30 +950,31 @@ def judge(case, obs, replies):
         corr("sequence observations missing", len(seq), len(seq_obs))
 
     # correspondence with the Lean model
-    rep = replies[0]
-    mv = rep.get("weights")
-    if mv is None or len(mv) != n:
-        corr("model returned no weights", None, rep)
-    else:
-        vals = [C.unfbits(x) for x in mv]
-        if any(not math.isfinite(v) or abs(v - a) > tol for v, a in zip(vals, w)):
-            corr("weights, Lean model (Float) vs implementation", vals, w)
-    if spec["cls"] == "EqualWeighter":
-        mv = replies[1].get("weights")
+    by_key = dict(zip(_model_plan(case), replies))
+    if "first" in by_key:
+        rep = by_key["first"]
+        mv = rep.get("weights")
         if mv is None or len(mv) != n:
-            corr("model (Rat) returned no weights", None, replies[1])
+            corr("model returned no weights", None, rep)
+        else:
+            vals = [C.unfbits(x) for x in mv]
+            if any(not math.isfinite(v) or abs(v - a) > tol for v, a in zip(vals, w)):
+                corr("weights, Lean model (Float) vs implementation", vals, w)
+    if "rat" in by_key:
+        mv = by_key["rat"].get("weights")
+        if mv is None or len(mv) != n:
+            corr("model (Rat) returned no weights", None, by_key["rat"])
         else:
             vals = [C.frac(x) for x in mv]
             if any(abs(D(v) - D(a)) > D(tol) for v, a in zip(vals, w)):
                 corr("weights, Lean model (exact Rat) vs implementation", [float(v) for v in vals], w)
-    base_n = 2 if spec["cls"] == "EqualWeighter" else 1
     for i, (st, so, s_tol) in enumerate(zip(seq, seq_obs, seq_tols)):
-        if base_n + i >= len(replies):
-            break
-        mv = replies[base_n + i].get("weights")
+        if i not in by_key:
+            continue
+        mv = by_key[i].get("weights")
         sw = so["weights"]
         if mv is None or len(mv) != n:
-            corr(f"model returned no weights for evaluation {i + 2} of the sequence", None, replies[base_n + i])
+            corr(f"model returned no weights for evaluation {i + 2} of the sequence", None, by_key[i])
         elif len(sw) == n:
             vals = [C.unfbits(x) for x in mv]
             if any(not math.isfinite(v) or not math.isfinite(a) or abs(v - a) > s_tol for v, a in zip(vals, sw)):
@@ -837,7 +995,9 @@ def tags(case, obs):
     o = d["objectives"]
     t = ["method:" + (_name(spec) if spec["cls"] != "EqualWeighter" else "EqualWeighter"), "family:" + d["family"],
          "objs:" + ("max" if all(x == 1 for x in o) else "min" if all(x == -1 for x in o) else "mixed"),
-         "n_crit:%d" % len(o), "n_alt:%s" % ("3-5" if len(d["matrix"]) <= 5 else "6-9" if len(d["matrix"]) <= 9 else "10+")]
+         "n_crit:%d" % len(o),
+         "n_alt:%s" % ("3-5" if len(d["matrix"]) <= 5 else "6-9" if len(d["matrix"]) <= 9 else "10+" if len(d["matrix"]) <= 100 else
+                       "101-200" if len(d["matrix"]) <= 200 else "201+")]
     if any(len(set(c)) < len(c) for c in _cols(d["matrix"])):
         t.append("ties-in-a-criterion")
     if "int" in d["dtypes"]:
@@ -854,8 +1014,17 @@ def tags(case, obs):
         if k:
             t.append("entropy:1-H<1e-5:" + ("all-criteria" if k == len(hs) else "some-criteria"))
     cvs = [_cv(c) for c in _cols(d["matrix"])]
+    if len(d["matrix"]) > 100 and min(cvs) > 0:
+        kmax = 1.0 / min(cvs)
+        if kmax >= KAPPA_MIN:
+            t.append("long-matrix+large-level:|mean|/std:" + ("1e5-1e7" if kmax < 1e7 else "1e7-1e9"))
+            t.append("long-matrix+large-level:" + ("all-criteria" if all(cv <= 1 / KAPPA_MIN for cv in cvs) else "some-criteria"))
     if any(cv < 5e-3 for cv in cvs):
         t.append("tiny-relative-spread:" + ("all-criteria" if all(cv < 5e-3 for cv in cvs) else "some-criteria"))
+    if _is_level(d.get("family")):
+        evals = [spec] + [st["spec"] for st in case.get("seq", [])]
+        skipped = sum(1 for sp in evals if not _model_affordable(case, sp))
+        t.append("long:evaluations-on-the-model:" + ("all" if not skipped else "all-but-%d-spearman" % skipped))
     t.append("incoming-weights:" + d.get("weights_kind", "distinct"))
     t.append("second-incoming-weights:" + d.get("weights2_kind", "distinct"))
     if all(0.0 <= x <= 1.0 for r in d["matrix"] for x in r):
